@@ -8,7 +8,7 @@ Arguments understood (same style as harness arguments):
   --seed=N --services=K --neg=all|none|N      generate K services (+ negative programs), build, run
   --replay=FILE                                rebuild the programs from the script/op lines of FILE
 """
-import hashlib, json, re, subprocess, sys, time
+import os, hashlib, json, re, subprocess, sys, time
 from pathlib import Path
 from . import core, trace
 
@@ -17,7 +17,8 @@ import c17_gen  # noqa: E402
 
 FAMILY = "c17svc"
 ROOT = core.CACHE / "c17"
-TARGET = core.CACHE / "c17-target"
+# (a seeded-change trial uses its own target dirs, see tools/try_seeded.sh)
+TARGET = core.CACHE / ("c17-target-seeded" if os.environ.get("VERIF_TARGET") else "c17-target")
 MACRO_MESSAGES = [
     r"patterns aren't allowed in RPC args",
     r"method args cannot start with self",
